@@ -1122,6 +1122,10 @@ class ManifestRecursiveLoader:
                             raise
                     except InvalidCompressedFileExceptions:
                         pass
+                    except (UnicodeDecodeError, EOFError):
+                        # binary garbage or truncated compressed data
+                        # in a file that merely has a Manifest name
+                        pass
                     else:
                         new_manifests.append(fpath)
 
